@@ -718,25 +718,25 @@ def run_replay(ctx):
             raise common.Infra("replay compared nothing")
         return
     if p.get("kind") == "notify-trace":
+        # the saved record is what was rejected (shown again for reference); the replay records the same runs again -
+        # same seed and options, the schedule will differ - and judges the new records
         tp = os.path.join(ctx.scratch, "saved.ndjson")
         open(tp, "w").write(p["line"] + "\n")
         summ, rej, r = judge(ctx, "saved", tp)
-        for x in rej:
+        ctx.log("the saved record is still rejected: %s" % [(x["kind"], x["r"], sorted(x["why"])) for x in rej])
+        args = list(p["args"])
+        out = os.path.join(ctx.scratch, "again.ndjson")
+        args[args.index("-out") + 1] = out
+        args[args.index("-dir") + 1] = os.path.join(ctx.scratch, "csrv_again")
+        harness_or_crash(ctx, args, "replay")
+        summ, rej, r = judge(ctx, "again", out)
+        lines = open(out).read().split("\n")
+        for x in rej[:3]:
             common.report(ctx, "c10-replay-%s" % x["kind"], "recorded %s stream rejected by NotifyTrace: %s (run %s, receiver %d)"
                           % (x["kind"], ", ".join(sorted(x["why"])), x["id"], x["r"]),
-                          {"kind": "notify-trace", "line": p["line"], "rejected": x, "args": p.get("args")})
-        # and record again with the same arguments (the schedule will differ)
-        if p.get("args"):
-            args = list(p["args"])
-            out = os.path.join(ctx.scratch, "again.ndjson")
-            args[args.index("-out") + 1] = out
-            args[args.index("-dir") + 1] = os.path.join(ctx.scratch, "csrv_again")
-            ctx.harness(args, timeout=3000)
-            summ, rej, r = judge(ctx, "again", out)
-            for x in rej[:3]:
-                common.report(ctx, "c10-replay-again-%s" % x["kind"], "recorded %s stream rejected by NotifyTrace: %s (run %s, receiver %d)"
-                              % (x["kind"], ", ".join(sorted(x["why"])), x["id"], x["r"]),
-                              {"kind": "notify-trace", "line": open(out).read().split("\n")[x["line"] - 1], "rejected": x, "args": p["args"]})
+                          {"kind": "notify-trace", "line": lines[x["line"] - 1], "rejected": x, "args": p["args"]})
+        if summ["streams"] == 0:
+            raise common.Infra("replay recorded nothing")
         return
     if p.get("kind") == "notify-crash":
         args = list(p["args"])
